@@ -4,7 +4,8 @@ hash seeds.
 Every history (a list of 1-5 calls, see _c18_runtime.py) is executed in its own process forked from
 a freshly started interpreter that has only imported the libraries.  Contracts (from the statement):
   inputs   : after every call the data frames, the formula specs (mutable list / dict specs and
-             shared Formula objects) and the context dict equal deep copies taken before;
+             shared Formula objects) and the context dict -- including the mutable lists / dicts / arrays in it
+             that formulas hand to transforms as arguments -- equal deep copies taken before;
   history  : the result of call i (values bit for bit, dtypes, column order, index labels, rows the
              caller's drop set reports) equals the result of *the same call made in a fresh process*
              -- for a build: that build alone; for a spec re-use: the build that produced the spec,
@@ -44,10 +45,16 @@ SPECS = {
     "dict-spec": {"lhs": "b", "rhs": "center(a) + B"},
     "C-levels": "C(A, levels=lv) + a",
     "C-sum": "C(B, contr.sum) + scale(b)",
+    # mutable objects referenced by name and handed to transforms as arguments
+    "bs-knots-list": "bs(b, knots=kn) + a",
+    "cr-knots-list": "cr(b, knots=kn2) + a",
+    "custom-contrasts-dict": "C(A, contrasts=cm) + a",
+    "scale-center-list": "scale(a, center=ctr) + b",
+    "poly-array": "poly(b, 2) + a:pw[0]",
 }
-STATEFUL = {"center", "scale:B", "poly", "bs", "many-factors", "dict-spec", "C-sum"}
-CORE = ["a+A", "center", "dict-spec"]
-CORE_THOROUGH = ["a+A", "center", "poly", "dict-spec", "scale:B", "two-sided", "many-factors", "list-spec"]
+STATEFUL = {"center", "scale:B", "poly", "bs", "many-factors", "dict-spec", "C-sum", "bs-knots-list", "cr-knots-list", "scale-center-list", "poly-array"}
+CORE = ["a+A", "center", "bs-knots-list"]
+CORE_THOROUGH = ["a+A", "center", "poly", "dict-spec", "scale:B", "two-sided", "bs-knots-list", "list-spec"]
 DATA = ("d0", "d1", "d2")
 # a dict-of-columns input ("dd" in the runtime) is rejected by the library on this Python ('builtins.dict' is not a
 # registered input type), so it is not drawn; the runtime keeps supporting it.
@@ -101,6 +108,8 @@ def isolated_chain(history, i):
     op = history[i]
     if op[0] in ("reuse", "mm_of"):
         return [history[op[1]], [op[0], 0, op[2]]]
+    if op[0] == "joint":
+        return [history[k] for k in op[1]] + [["joint", list(range(len(op[1]))), op[2]]]
     return [op]
 
 
@@ -110,7 +119,7 @@ def isolated_chain(history, i):
 def pair_histories(core):
     ops = [[k, SPECS[s], d, "pandas"] for k in BUILD_KINDS for s in core for d in DATA]
     for o1, o2 in itertools.product(ops, repeat=2):
-        yield [o1, o2, ["reuse", 0, "d2"], ["reuse", 1, "d0"]]
+        yield [o1, o2, ["joint", [0, 1], "d2"], ["reuse", 0, "d2"], ["reuse", 1, "d0"]]
 
 
 def random_histories(rng, count):
@@ -121,7 +130,9 @@ def random_histories(rng, count):
         h = []
         for i in range(length):
             builds = [j for j, o in enumerate(h) if o[0] in BUILD_KINDS]
-            if builds and rng.random() < 0.4:
+            if len(builds) >= 2 and rng.random() < 0.15:
+                h.append(["joint", rng.sample(builds, 2), rng.choice(DATA_ALL)])
+            elif builds and rng.random() < 0.4:
                 h.append([rng.choice(["reuse", "reuse", "mm_of"]), rng.choice(builds), rng.choice(DATA_ALL)])
             else:
                 s = rng.choice(focus) if rng.random() < 0.8 else rng.choice(names)
@@ -139,12 +150,17 @@ def classify(history, i):
         origin = history[op[1]]
         tags.append("spec-from-" + origin[0])
         later = [o for o in history[op[1] + 1 : i] if o[0] in BUILD_KINDS]
+        if any(o[0] == "joint" and op[1] in o[1] for o in history[op[1] + 1 : i]):
+            tags.append("spec-was-part-of-a-joint-build")
         if any(o[1] == origin[1] for o in later):
             tags.append("same-formula-built-in-between")
         elif later:
             tags.append("other-builds-in-between")
         if _spec_name(origin[1]) in STATEFUL:
             tags.append("stateful")
+    elif op[0] == "joint":
+        if len({json.dumps(history[k][1], sort_keys=True) for k in op[1]}) == 1:
+            tags.append("same-formula-specs")
     else:
         same_obj = [o for o in history[:i] if o[0] == op[0] and o[1] == op[1] and (op[0] != "uspec" or o[3] == op[3])]
         if op[0] in ("Fmm", "uspec") and same_obj:
@@ -243,10 +259,11 @@ def run_bounded(ctx):
     with ctx.bounded(
         "pairs",
         rule=f"every ordered pair of builds over (entry: model_matrix / shared Formula object / shared un-materialized ModelSpec) x "
-        f"formulas {core} x data d0,d1,d2 (pandas output), followed by re-using both obtained specs on other data; "
+        f"formulas {core} x data d0,d1,d2 (pandas output), followed by building both obtained specs jointly in one ModelSpecs "
+        "and then re-using each of them on other data; "
         "each history in its own fresh process; a history is one case",
         exhaustive=True,
-        bound=f"{len(pairs)} histories of 4 calls over a {len(core) * 9}-call vocabulary",
+        bound=f"{len(pairs)} histories of 5 calls over a {len(core) * 9}-call vocabulary",
     ) as b:
         rep = K.Reporter(ctx, b)
         base_pairs = run_zygotes(pairs, "0")
@@ -257,8 +274,9 @@ def run_bounded(ctx):
         "random-histories",
         rule=f"seeded histories of 1-5 calls over {len(SPECS)} formula specs (strings, list and dict specs; stateful transforms, "
         "context variables, two-sided / multi-part) x 3 frames (one with nulls and string index, one with other levels) x 3 outputs x "
-        "builds (model_matrix, shared Formula, shared un-materialized spec) and re-uses (spec.get_model_matrix, model_matrix(<earlier "
-        "result>)); histories revolve around one or two formulas; non-trivial = more than one call",
+        "builds (model_matrix, shared Formula, shared un-materialized spec), re-uses (spec.get_model_matrix, model_matrix(<earlier "
+        "result>)) and joint builds of two earlier specs in one ModelSpecs; context holds mutable lists / dicts / arrays that formulas "
+        "pass to transforms (knots=, contrasts=, levels=, center=); histories revolve around one or two formulas; non-trivial = more than one call",
         exhaustive=False,
         bound="history length<=5",
     ) as b:
